@@ -46,7 +46,11 @@ Shapes == {"bare", "eq", "re", "neq", "nolabel", "alerts"}
 RuleSets == {"none", "rr_same", "rr_other", "alert_same", "alert_other"}
 Exempts == {"none", "disable", "disable_other", "snooze", "snooze_expired", "ignore", "ignore_other", "minage1h", "minage3h"}
 
-Scenario == [shape : Shapes, ha : HistNames, hb : HistNames, up : UpNames, rules : RuleSets, exempt : Exempts]
+\* how the selector is used in the rule expression: `sel > 0`, `sum(sel) > 0`, `rate(sel[5m]) > 0`.
+\* The check extracts the selector (getNonFallbackSelectors), so the wrapper must not change anything.
+Wraps == {"cmp", "sum", "rate"}
+
+Scenario == [shape : Shapes, ha : HistNames, hb : HistNames, up : UpNames, rules : RuleSets, exempt : Exempts, wrap : Wraps]
 
 -----------------------------------------------------------------------------
 (* What the server holds, per selector                                     *)
@@ -185,7 +189,7 @@ vars == <<sc, pc, out>>
 
 \* scenarios on which the documentation is silent stay out: the alerts shape with rule sets about
 \* recording rules and vice versa are harmless and kept
-Init == /\ sc \in [shape : Shapes, ha : {"never"}, hb : {"never"}, up : {"always"}, rules : {"none"}, exempt : {"none"}]
+Init == /\ sc \in [shape : Shapes, ha : {"never"}, hb : {"never"}, up : {"always"}, rules : {"none"}, exempt : {"none"}, wrap : Wraps]
         /\ pc = "data" /\ out = [probes |-> << >>, problems |-> {}]
 ChooseData ==  /\ pc = "data"
                /\ \E a \in HistNames, b \in HistNames, u \in UpNames : sc' = [sc EXCEPT !.ha = a, !.hb = b, !.up = u]
@@ -204,6 +208,6 @@ Inv_P2 == pc = "done" => P2(NoSample(sc), sc, out.problems)
 CellSeq(S) == LET RECURSIVE F(_) F(k) == IF k > 15 THEN << >> ELSE (IF k \in S THEN << k >> ELSE << >>) \o F(k + 1) IN F(-3)
 CaseOf == [shape |-> sc.shape, ha |-> CellSeq(Hist(sc.ha)), hb |-> CellSeq(Hist(sc.hb)), up |-> CellSeq(UpHist(sc.up)),
            noup |-> sc.up = "none", rules |-> sc.rules, exempt |-> sc.exempt,
-           han |-> sc.ha, hbn |-> sc.hb, upn |-> sc.up]
+           han |-> sc.ha, hbn |-> sc.hb, upn |-> sc.up, wrap |-> sc.wrap]
 EmitCase == pc = "done" => PrintT(<<"CASE", ToJson(CaseOf)>>)
 =============================================================================
